@@ -300,14 +300,20 @@ bi31_next(bitint_iter_t *restrict iter, bitint31_t bi)
 			/* switch to negatives */
 			*iter = 33U;
 		}
-	} else if (*iter > 32 && *iter < 64 && (bi.neg >>= (*iter - 32U))) {
-		/* we're doing negatives alright */
-		for (; !(bi.neg & 0b1U); (*iter)++, bi.neg >>= 1U);
-		res = 32 - (*iter)++;
 	} else {
-	term:
-		*iter = 0U;
-		return 0;
+		if (*iter < 32U) {
+			/* no positives (left), switch to negatives */
+			*iter = 33U;
+		}
+		if (*iter < 64U && (bi.neg >>= (*iter - 32U))) {
+			/* we're doing negatives alright */
+			for (; !(bi.neg & 0b1U); (*iter)++, bi.neg >>= 1U);
+			res = 32 - (*iter)++;
+		} else {
+		term:
+			*iter = 0U;
+			return 0;
+		}
 	}
 	return res;
 }
@@ -359,14 +365,20 @@ bi63_next(bitint_iter_t *restrict iter, bitint63_t bi)
 			/* switch to negatives */
 			*iter = 65U;
 		}
-	} else if (*iter > 64 && *iter < 128 && (bi.neg >>= (*iter - 64U))) {
-		/* we're doing negatives alright */
-		for (; !(bi.neg & 0b1U); (*iter)++, bi.neg >>= 1U);
-		res = 64 - (*iter)++;
 	} else {
-	term:
-		*iter = 0U;
-		return 0;
+		if (*iter < 64U) {
+			/* no positives (left), switch to negatives */
+			*iter = 65U;
+		}
+		if (*iter < 128U && (bi.neg >>= (*iter - 64U))) {
+			/* we're doing negatives alright */
+			for (; !(bi.neg & 0b1U); (*iter)++, bi.neg >>= 1U);
+			res = 64 - (*iter)++;
+		} else {
+		term:
+			*iter = 0U;
+			return 0;
+		}
 	}
 	return res;
 }
